@@ -89,14 +89,14 @@ CHECKS['C08'] = dict(
 CHECKS['C03'] = dict(
    text='(I) one real should_record call from an arbitrary filter state under the representation invariant: a row is emitted iff the next record distance was reached, it is the exact linear interpolation there, invariant again - hence every shot and length. '
         '(P) the real Calculator.fire on carriers with concrete physics and SYMBOLIC range and record step (quantity in ft/m/yd or bare): every cell of the (range, step) plane; row count, row distance = k*step as terms, monotonicity, muzzle row, 11 rows by default, time-step spacing.',
-   note='Carriers A (.308 G7), B (G1 1250 fps), C (G1 930 m/s at 30 deg) with coarse integration steps; horizon K <= 12 (quick) / 40 (thorough) integration steps (default-step runs K ~ 22-26). "One integration step" beyond the range = the configured step (max_step/2). '
+   note='Carriers A (.308 G7), B (G1 1250 fps), C (G1 930 m/s at 30 deg) with coarse integration steps; horizon K <= 12 (quick) / 24 (thorough) integration steps (default-step runs K ~ 22-26). "One integration step" beyond the range = the configured step (max_step/2). '
         'Record arithmetic over the reals. KNOWN FINDING: a step larger than the range yields a padding row (see known_findings.json). Outside: record steps smaller than the integration step; shots that stop moving down-range.',
    ref='3/C03')
 CHECKS['C12'] = dict(
    text='Real Shot.winds (sort on symbolic keys forks over every ordering) + real _WindSock driven exactly as _integrate drives it, with SYMBOLIC until-distances (any order, duplicates) and symbolic query positions: the vector in force equals the first sorted segment whose until-distance exceeds x, '
         'zero beyond the last; Wind.vector sign conventions and left-right mirroring on symbolic speed/direction.',
    note='Sock: n <= 3 winds quick / 4 thorough, n+2 queries, vectors identified by concrete distinct speeds. Carriers (C12.fire): concrete wind vectors with SYMBOLIC until-distances in any order - input-order independence (ties excluded: with equal until-distances the statement does not determine which wind acts), '
-        'segment in force at every integration step, causality (rows up to the first segment end unchanged when later segments are replaced), zero speed = no wind, left-right mirror negates windage only (twist-0 carrier), all bit-for-bit per cell; K <= 12 / 40 steps. '
+        'segment in force at every integration step, causality (rows up to the first segment end unchanged when later segments are replaced), zero speed = no wind, left-right mirror negates windage only (twist-0 carrier), all bit-for-bit per cell; K <= 12 / 24 steps. '
         'Head/tail-wind effect on drop and time of flight: three concrete runs per carrier (TEST strength, C12.headtail).',
    ref='3/C12')
 
@@ -117,14 +117,14 @@ CHECKS['C02'] = dict(
 CHECKS['C04'] = dict(
    text='PARTIAL. (I) one real _integrate iteration from an arbitrary state with SYMBOLIC limits: RangeError raised iff the post-step state violates a limit, reason by precedence velocity > drop > altitude, last row = post-step state, last_distance is the last row\'s. '
         '(P) carriers with concrete physics and symbolic limits: cells = which step trips which limit; rows before the last are bit-identical to the unlimited run and respect all limits.',
-   note='OUTSIDE: "every computation terminates" (liveness over an unbounded floating point loop) - only dt > 0 per step (C01.step) and bounded carrier horizons K <= 12 quick / 40 thorough (a path exceeding 4K steps is cut and reported). '
+   note='OUTSIDE: "every computation terminates" (liveness over an unbounded floating point loop) - only dt > 0 per step (C01.step) and bounded carrier horizons K <= 12 quick / 24 thorough (a path exceeding 4K steps is cut and reported). '
         'Interpolated rows may undershoot the velocity limit by the chord error: 1e-3 relative tolerance for rows before the last.',
    ref='3/C04')
 CHECKS['C15'] = dict(
    text='The real _TrajectoryDataFilter (all flags) and setup_seen_zero fed K SYMBOLIC integration points: ZERO_UP / ZERO_DOWN exactly at the first upward / subsequent downward crossing (once each), MACH exactly when speed/sound falls through 1, flagged point yields a row with the bit, '
         'row within the step of the crossing, time order. Carriers with symbolic range/step: flag words of the integration points and returned rows match the crossings; HitResult.zeros().',
    note='K = 4 points quick / 4..6 thorough (2 / 3 when range rows interleave); look angle in {0, +-0.35 rad} (concrete, so the sight line is linear in x). Assumes a trajectory that starts below the line with the barrel pointing below it never rises above it (concavity). '
-        'Carriers A (sight above/below bore, level and 20 deg), B (Mach crossing), horizon K <= 12 / 40 steps.',
+        'Carriers A (sight above/below bore, level and 20 deg), B (Mach crossing), horizon K <= 12 / 24 steps.',
    ref='3/C15')
 
 CHECKS['C10'] = dict(
@@ -136,7 +136,7 @@ CHECKS['C10'] = dict(
 CHECKS['C11'] = dict(
    text='Carriers with concrete physics and SYMBOLIC range, record step and time step, plain and extra in the same cell: the integration points seen by a pass-through spy are a bit-identical prefix of one reference sequence per carrier; every recorded range row equals the linear interpolation '
         'of the two bracketing reference points at its distance (terms in the request), time/event rows are reference points; extra output = plain rows (same terms) + event rows.',
-   note='Horizon K <= 12 quick / 40 thorough integration steps; carriers A (two winds), B, C [thorough + more]. Interpolation compared over the reals (identical terms). For shots outside the carrier list the statement follows from C03.filter + C01.step (the step never reads the filter).',
+   note='Horizon K <= 12 quick / 24 thorough integration steps; carriers A (two winds), B, C [thorough + more]. Interpolation compared over the reals (identical terms). For shots outside the carrier list the statement follows from C03.filter + C01.step (the step never reads the filter).',
    ref='3/C11')
 
 CHECKS['C18'] = dict(
